@@ -383,7 +383,7 @@ func runLiveCell(p *Program, step *ssa.Function, s refState, in liveInput, hs bo
 			}
 			// the receiver may keep what it is given: the message must be freshly allocated by this step and the decoder
 			// must not keep a reference to it (a scratch buffer of the decoder is rewritten by a later message)
-			if msg.Obj <= firstFresh || len(msg.Path) > 0 {
+			if !ex.allocatedSince(firstFresh, msg.Obj) || len(msg.Path) > 0 {
 				fail("the delivered message shares storage with the decoder (not allocated for this delivery): a message the receiver keeps is overwritten later")
 			} else if sv, ok := o.St.heap[rp.Obj].(*StructV); ok {
 				for _, fv := range sv.Fields {
